@@ -716,6 +716,29 @@ func (e *limbEngine) block(fr *lframe, b, pred *ssa.BasicBlock, from int, depth 
 				return
 			}
 			for _, val := range []bool{true, false} {
+				if cv.conj != nil && val == cv.conjNeg {
+					// "the structs differ" = some field differs: one sub-path per field that may be the one, each
+					// judged like a failed word comparison
+					s := b.Succs[1]
+					if val {
+						s = b.Succs[0]
+					}
+					for ci, cj := range cv.conj {
+						// the FIRST field that differs is field ci: the ones before it are equal
+						f3 := fr.fork()
+						feasible := true
+						for _, before := range cv.conj[:ci] {
+							if !e.assume(f3, &lval{cmp: before}, true) {
+								feasible = false
+							}
+						}
+						if !feasible || !e.assume(f3, &lval{cmp: cj}, false) {
+							continue
+						}
+						e.block(f3, s, b, 0, depth, k)
+					}
+					continue
+				}
 				f2 := fr.fork()
 				if !e.assume(f2, cv, val) {
 					continue // infeasible
@@ -983,7 +1006,17 @@ func (e *limbEngine) binop(fr *lframe, in *ssa.BinOp) *lval {
 		return e.opaque(st, in.Type(), "variable shift")
 	case token.SHL:
 		if c, ok := py.isConst(); ok && c.IsInt64() && c.Int64() >= 0 && c.Int64() < 64 {
-			return e.mk(st, pscale(px, new(big.Int).Lsh(big.NewInt(1), uint(c.Int64()))), in.Type(), tx)
+			k := uint(c.Int64())
+			// x << k on a 64-bit unsigned word keeps exactly the low 64-k bits of x: when x may be wider than
+			// that, the result is (x mod 2^(64-k)) * 2^k — the same as masking first (`(x & 0xFFFFFFFF) << 32`)
+			if bt, isB := in.Type().Underlying().(*types.Basic); isB && (bt.Kind() == types.Uint64 || bt.Kind() == types.Uint) && !tx && k > 0 {
+				lo, hi := st.interval(px)
+				if lo != nil && lo.Sign() >= 0 && hi.BitLen() > int(64-k) && hi.BitLen() <= 64 {
+					sp := e.split(st, px, 64-k, false)
+					return e.mk(st, pscale(patom(sp.lo), new(big.Int).Lsh(big.NewInt(1), k)), in.Type(), false)
+				}
+			}
+			return e.mk(st, pscale(px, new(big.Int).Lsh(big.NewInt(1), k)), in.Type(), tx)
 		}
 		return e.opaque(st, in.Type(), "variable shift")
 	case token.OR:
